@@ -5,11 +5,17 @@
 .. moduleauthor:: Alberto Casagrande <acasagrande@units.it>
 """
 
+import re
 import sys
 
 from .. import language as BooleanLogics
 
 from ..language import get_alphabet
+
+
+_plain_name = re.compile(r'^[a-zA-Z_][a-zA-Z_0-9]*$')
+_reserved_words = set(['true', 'false', 'not', 'or', 'and',
+                       'A', 'E', 'X', 'F', 'G', 'U', 'R'])
 
 
 class Formula(BooleanLogics.Formula):
@@ -159,7 +165,13 @@ class AtomicProposition(Formula, BooleanLogics.AlphabeticSymbol):
         return []
 
     def __str__(self):
-        return '{}'.format(self.name)
+        if _plain_name.match(self.name) and self.name not in _reserved_words:
+            return '{}'.format(self.name)
+
+        # any other name is printed as a quoted string (the parsers' second
+        # form for atomic propositions), so that it cannot be mistaken for a
+        # keyword or for the printed form of a compound formula
+        return '"{}"'.format(self.name)
 
 
 class Bool(BooleanLogics.Bool, AtomicProposition):
